@@ -6,6 +6,7 @@ from fractions import Fraction
 import numpy as np
 
 from ..common import Ctx, Tokens, close, driver_batch, f2b, fvec
+from . import c04_ext
 
 LEVEL = "proof"
 LEVEL_TEXT = (
@@ -21,13 +22,21 @@ LEVEL_TEXT = (
     "rule exact to degree 2n-1 on [-1,1] (Gauss-Legendre contract, hypothesis) mapped by the generated LinearFiniteRTransform "
     "is exact to degree 2n-1 on [rmin, rmax]. Tie to the code: translator + correspondence of the model at Float (transform "
     "formulas = the generated definitions of Gen/RTransform.lean) with the implementation over (rule, n) x transform x "
-    "parameters incl. rejected inputs."
+    "parameters incl. rejected inputs. Round 2: the same model and the generated closed forms / declared intervals "
+    "instantiated at XReal (exact reals extended by IEEE +-inf, nan): the new domain is np.sort of the two images whatever they "
+    "are; both images numbers (finite or infinite) => ordered pair; image nan => (r(lo), nan), not ordered and containing nothing; "
+    "monotone in either direction on a finite or half-infinite domain => every node inside; HyperbolicRTransform: every accepted "
+    "rule on (0, inf) gets the domain (0, nan) (the listed finding as a theorem, with an accepted witness, the full clause refuted, "
+    "and the clause proved below the pole); Identity / LinearInfinite on (0, inf): domain (rmin, inf) containing the nodes; Becke: "
+    "(rmin, inf) untrimmed, (rmin, 1e16) trimmed, node x = 1 included; MultiExp (decreasing): image (inf, rmin) sorted to (rmin, inf) / "
+    "(rmin, 1e16). The driver takes the transform's declared domain from the generated text (InverseRTransform: generated swap) and "
+    "answers domain-differs when the implementation's tf.domain is not the same pair."
 )
 TECHNIQUE = ("Lean 4 / Mathlib proof (list algebra, order, interval-integral substitution, polynomial composition) over "
              "definitions translated from the Python AST + differential run of the Float model + oracle on the implementation "
              "(mpmath.quad, exact rationals, sign and containment checks)")
 GEN = ["rtransform", "transform1d"]
-LEAN_MODULES = ["GridVerif.Props.C04.General", "GridVerif.Props.C04.Concrete"]
+LEAN_MODULES = ["GridVerif.Props.C04.General", "GridVerif.Props.C04.Concrete", "GridVerif.Props.C04.Extended"]
 THEOREMS = [f"GridVerif.C04.{t}" for t in [
     "integrate_transformed_signed", "integrate_transformed_partial", "integrate_transformed_decreasing",
     "reflection_midpoint1", "integrate_transformed_fails_at",
@@ -36,7 +45,8 @@ THEOREMS = [f"GridVerif.C04.{t}" for t in [
     "domain_guard", "domain_ordered_image", "nodes_in_domain", "transform_accepts_of_monotone",
     "multiexp_negative_weights", "multiexp_integral_neg", "integrate_transformed_fails_at_multiexp",
     "gl_linear_exact", "linearFinite_accepts",
-]]
+]] + [f"GridVerif.C04.Ext.{t}" for t in ["sort2_of_le", "sort2_of_lt", "sort2_nan_right", "sort2_nan_left", "sort2_ordered", "transform1dGrid_ok_x", "domain_sorted_image_x", "domain_ordered_image_x", "domain_nan_of_image_nan", "nodes_in_domain_x", "hyperbolic_transform_posInf", "hyperbolic_domain_nan", "hyperbolic_accepts_halfLine2", "hyperbolic_domain_fails_at", "hyperbolic_domain_partial", "identity_halfline", "linearInfinite_transform_posInf", "linearInfinite_halfline", "becke_transform_fin", "becke_transform_one", "becke_domain", "becke_nodes_in_domain_untrimmed", "becke_nodes_in_domain_trimmed", "multiExp_domain",
+    "inverse_becke_transform_posInf", "inverse_becke_domain_nan"]]     # round 2: the domain clauses on XReal (exact reals + IEEE inf/nan)
 RULE = (
     "correspondence: one evaluation = one call tf.transform_1d_grid(grid) (or OneDGrid(points, weights, domain)) made on the "
     "implementation and on the Lean model at Float; grid = one of 24 rule classes x npoints (smallest admissible, odd, even, "
@@ -45,19 +55,30 @@ RULE = (
     "non-integer exponents, trim on/off) or InverseRTransform of it applied to the grid it produced; pairs with mismatching "
     "domains are included (both sides must reject); compared: error kind, every new point and weight (rtol 1e-9), the new "
     "domain. Non-trivial = at least 2 points and (a transform other than the identity with random parameters, or a rejected "
-    "input)."
+    "input). Round 2: plus scripts of several transform objects x several grid objects x a sequence of calls on shared objects (same "
+    "grid twice, another transform in between, rebuilt objects, the caller editing a grid in place, b of LinearInfinite/Exp/Power left "
+    "open and inferred from the first array), hand-built grids with nodes in any order / repeated / on the ends / within the 1e-7 slack "
+    "outside, negative and zero weights, float32 / int64 / read-only / strided arrays, parameters as Python int / np.int64 / np.float32 / "
+    "np.float64, exponents 0.5..8, every class also wrapped in InverseRTransform on sub-intervals of its codomain, maps without inverse "
+    "(ZeroDivisionError), n up to 1001 (thorough); compared in addition: the caller's grid is unchanged, b of the object = maximum of "
+    "the first array; the concrete instances of the XReal theorems (rules on (0, inf), images at inf / 1e16, the nan domain) replayed on "
+    "the implementation, and the table of IEEE special-value operations that XReal encodes evaluated with NumPy."
 )
 TRUSTED_BASE = [
     "Lean 4.33 kernel; Mathlib; axioms propext, Classical.choice, Quot.sound only (audited per theorem)",
     "translator harness/translate/transform1d.py (Python AST of transform_1d_grid -> Lean text) and rtransform.py (closed forms of the classes)",
     "hand model Model/Transform1D.lean (order of checks, OneDGrid constructor with 1e-7 slack, np.min/np.max/np.sort of two elements), tied by correspondence",
     "Elem instance at ℝ (Lemmas/ElemReal.lean); HasInf ℝ (no real is infinite)",
+    "XReal (Lemmas/XReal.lean): the reading of IEEE-754 special values over exact reals (x/0 = +-inf, 0/0 = inf-inf = 0*inf = inf/inf = nan, "
+    "every comparison with nan false, np.sort puts nan last); tied to NumPy by a table of special-value operations evaluated on every run",
     "statements in Props/C04/*.lean and their reading of the property (rule sum, |r'| as the magnitude of the Jacobian, finite grid domains in the theorems)",
     "Lean compiler/runtime for the Float instance (driver), libm vs numpy (rtol 1e-9)",
 ]
 ASSUMPTIONS = [
     "IEEE rounding is not modelled: equalities are over ℝ, the correspondence uses rtol 1e-9",
-    "theorems speak about grids with a finite domain; rules on (0, inf) and infinite images (±inf, 1e16 after trimming) are covered by the correspondence and the oracle only",
+    "General.lean / Concrete.lean speak about grids with a finite domain over the reals; rules on (0, inf), infinite images (+-inf, 1e16 after "
+    "trimming) and the nan domain are covered by Extended.lean on XReal, whose arithmetic on finite values is exact (no rounding, no overflow) and "
+    "which has one unsigned zero; the IEEE reading it encodes is compared with NumPy on every run (c04_ext)",
     "Gauss-Legendre exactness on [-1,1] is a hypothesis of gl_linear_exact (numpy.polynomial.legendre.leggauss is not verified); the oracle checks the transported exactness with exact rationals",
     "input grids satisfy len(points) == len(weights) (invariant of Grid.__init__)",
 ]
@@ -104,9 +125,11 @@ def OneDGrid():
 # ----------------------------------------------------------------------------
 def _expo(rng):
     u = rng.random()
-    if u < 0.4:
-        return rng.choice([1, 2, 3, 4])
-    return round(rng.uniform(0.5, 4.5), rng.choice([1, 2, 5]))
+    if u < 0.35:
+        return rng.choice([1, 2, 3, 4, 5, 6, 8])
+    if u < 0.5:
+        return rng.choice([0.5, 1.5, 2.5, 3.5, 4.5, 7.5])
+    return round(rng.uniform(0.5, 8.0) if rng.random() < 0.4 else rng.uniform(0.5, 4.5), rng.choice([1, 2, 5]))
 
 
 def gen_params(cls, rng, npts=10):
@@ -172,9 +195,9 @@ def _line(inv, cls, ps, trim, tfdom, g):
             + f"{fvec(g.points)} {fvec(g.weights)}")
 
 
-def _impl(tf, g):
+def _impl(tf, g, keyword=False):
     try:
-        h = tf.transform_1d_grid(g)
+        h = tf.transform_1d_grid(oned_grid=g) if keyword else tf.transform_1d_grid(g)
     except ValueError:
         return "value-error", None
     except ZeroDivisionError:
@@ -204,13 +227,13 @@ def _same(a, b, rtol=1e-9, atol=1e-300):
     return close(a, b, rtol=rtol, atol=atol)
 
 
-def _conditioning(tf, g, base=None):
+def _conditioning(tf, g, base=None, eps=2.220446049250313e-16):
     """Per-node slack for conditioning-limited nodes: how far the implementation's own transform / deriv move when
     the node moves by a few ulp of 1 + |x| (nodes of the double-exponential rules sit 1e-12 from an end point where the
     maps blow up; a rounding difference between two pow/log routines is amplified by the same factor).
     For `InverseRTransform(base)` the rounding that matters is that of the intermediate `x = base.inverse(r)`."""
     r = np.asarray(g.points, dtype=float)
-    eps8 = 8 * 2.220446049250313e-16
+    eps8 = 8 * eps
 
     def spread(T, D, x):
         hstep = eps8 * (1 + np.abs(x))       # a relative rounding error of 1 + x, amplified
@@ -266,6 +289,978 @@ def _compare(tag, h, ans, rtol=1e-9, cond=None):
 
 
 # ----------------------------------------------------------------------------
+# round 2 — scripts: several transform objects x several grid objects x a sequence of calls made in one process.
+# The same script is (a) run against the Lean model call by call (correspondence, `_corr_scripts`) and
+# (b) judged by the property itself (`c04_check_script`, oracle and `oracle_at`).  PROP_SRC is source text so that
+# the replay snippet of a failing script is self-contained.
+# ----------------------------------------------------------------------------
+B_CLS = ("LinearInfiniteRTransform", "ExpRTransform", "PowerRTransform")
+EXPO_LIST = [3, 2.5, 4, 0.5, 5, 3.5, 8, 1.5, 6, 7.5, 2, 1]      # integers >= 3 and half-integers come first
+
+PROP_SRC = r'''
+C04_HAS_TRIM = ("BeckeRTransform", "MultiExpRTransform", "KnowlesRTransform", "HandyRTransform", "HandyModRTransform")
+C04_B_CLS = ("LinearInfiniteRTransform", "ExpRTransform", "PowerRTransform")
+
+
+def c04_build_tf(rt, spec):
+    """The implementation's transform object described by spec = {cls, ps, trim, inv, b_none, ptypes}."""
+    import numpy as np
+    cast = {"float": float, "int": int, "np.float64": np.float64, "np.int64": np.int64, "np.float32": np.float32}
+    cls, ps = spec["cls"], list(spec["ps"])
+    args = [cast[t](p) for p, t in zip(ps, spec.get("ptypes") or ["float"] * len(ps))]
+    C = getattr(rt, cls)
+    if cls in C04_HAS_TRIM:
+        T = C(*args, trim_inf=bool(spec.get("trim")))
+    elif cls in C04_B_CLS:
+        T = C(args[0], args[1]) if spec.get("b_none") else C(args[0], args[1], b=args[2])
+    else:
+        T = C(*args)
+    return rt.InverseRTransform(T) if spec.get("inv") else T
+
+
+def c04_build_grid(OneDGrid, spec):
+    """OneDGrid described by spec = {points, weights, domain, pdtype, wdtype, layout}."""
+    import numpy as np
+
+    def arr(vals, dt, layout):
+        a = np.array(vals, dtype=dt)
+        if layout == "strided":                 # a non-contiguous view
+            big = np.zeros(2 * a.size + 1, dtype=dt)
+            big[1::2] = a
+            a = big[1::2]
+        elif layout == "negstride":             # a view with negative stride
+            a = np.array(a[::-1])[::-1]
+        elif layout == "readonly":
+            a.setflags(write=False)
+        return a
+    d = spec["domain"]
+    lay = spec.get("layout", "plain")
+    if lay == "same-array":                     # one array object is both the points and the weights
+        a = arr(spec["points"], spec.get("pdtype", "float64"), "plain")
+        return OneDGrid(a, a, None if d is None else tuple(d))
+    return OneDGrid(arr(spec["points"], spec.get("pdtype", "float64"), lay),
+                    arr(spec["weights"], spec.get("wdtype", "float64"), lay), None if d is None else tuple(d))
+
+
+def c04_check_script(script, rt, OneDGrid, HP, hp_call, mpmath, slack=1e-7, max_nodes=48):
+    """Property C04 evaluated on the implementation for every call of `script`, made in order, in this process, on
+    shared objects: script = {"tfs": [spec...], "grids": [spec...], "calls": [[tf index, grid index]...]}.
+    Reference: the map r(x) is the transform object's own `transform` (`inverse` of the wrapped object for
+    InverseRTransform) run in 40-digit arithmetic with the parameters of the specification (b of
+    LinearInfinite/Exp/Power left open = maximum of the first array that object transformed); new points = r(x_i) in
+    the order of the input; new weights = |r'(x_i)| w_i with r' = mpmath.diff of r; new domain = ordered image of the old
+    ends, containing every node up to the 1e-7 slack of OneDGrid; the caller's grid is unchanged by the call.
+    -> list of (kind, index of the call, message)"""
+    import numpy as np
+    dps = mpmath.mp.dps
+    mpmath.mp.dps = 40
+    try:
+        with np.errstate(all="ignore"):
+            return _c04_check(script, rt, OneDGrid, HP, hp_call, mpmath, slack, max_nodes)
+    finally:
+        mpmath.mp.dps = dps
+
+
+def _c04_check(script, rt, OneDGrid, HP, hp_call, mpmath, slack, max_nodes):
+    import numpy as np
+    mpf = mpmath.mpf
+    out = []
+    tfs = [c04_build_tf(rt, s) for s in script["tfs"]]
+    grids = [c04_build_grid(OneDGrid, s) for s in script["grids"]]
+    bref = [None] * len(tfs)
+
+    def twin(spec, b):
+        cls = spec["cls"]
+        C = getattr(rt, cls)
+        args = [HP(float(p)) for p in spec["ps"]]
+        if cls in C04_HAS_TRIM:
+            return C(*args, trim_inf=bool(spec.get("trim")))
+        if cls in C04_B_CLS:
+            return C(args[0], args[1], b=HP(float(b)))
+        return C(*args)
+
+    def diff(f, x, order=1):
+        for kw in ({}, {"direction": 1}, {"direction": -1}):
+            try:
+                d = mpmath.diff(f, mpf(x), order, **kw)
+            except Exception:
+                continue
+            if isinstance(d, mpf) and mpmath.isfinite(d):
+                if kw:      # one-sided (an end of the natural domain): the derivative may be infinite there; two step sizes tell
+                    try:
+                        da = mpmath.diff(f, mpf(x), order, h=mpf(10) ** -10, **kw)
+                        db = mpmath.diff(f, mpf(x), order, h=mpf(10) ** -14, **kw)
+                    except Exception:
+                        return None
+                    if not (mpmath.isfinite(da) and mpmath.isfinite(db) and abs(da - db) <= 1e-3 * abs(db) + mpf(10) ** -25):
+                        return None
+                return d
+        return None
+
+    def same(a, e, scale):
+        if mpmath.isnan(e):
+            return a != a
+        if mpmath.isinf(e) or abs(e) >= 1e15:
+            return abs(a) > 1e12 and (a > 0) == (e > 0)
+        return a == a and abs(mpf(a) - e) <= 1e-9 * max(1, abs(e), scale)
+
+    for ci, call in enumerate(script["calls"]):
+        if call[0] == "edit":       # ["edit", grid index, points, weights]: the caller edits the arrays of a grid in place
+            g = grids[call[1]]
+            g.points[...] = np.array(call[2], dtype=g.points.dtype)
+            if g.weights is not g.points:
+                g.weights[...] = np.array(call[3], dtype=g.weights.dtype)
+            continue
+        ti, gi = call
+        spec, T, g = script["tfs"][ti], tfs[ti], grids[gi]
+        cls, inv = spec["cls"], bool(spec.get("inv"))
+        name = "%s(%s)" % (cls, ", ".join([repr(p) for p in spec["ps"]] + (["b=None"] if spec.get("b_none") else [])
+                                          + (["trim_inf=%s" % bool(spec.get("trim"))] if cls in C04_HAS_TRIM else [])))
+        name = "InverseRTransform(%s)" % name if inv else name
+        xs, ws = [float(v) for v in g.points], [float(v) for v in g.weights]
+        where = "call %d, %s.transform_1d_grid(OneDGrid(%r, %r, %r))" % (ci, name, xs[:6] + (["..."] if len(xs) > 6 else []),
+                                                                         ws[:6] + (["..."] if len(ws) > 6 else []), g.domain)
+        before = (g.points.copy(), g.weights.copy(), g.domain)
+        try:
+            h, tag = T.transform_1d_grid(g), "ok"
+        except (ValueError, ZeroDivisionError, TypeError) as e:
+            h, tag = None, type(e).__name__
+        if not (g.points.dtype == before[0].dtype and g.weights.dtype == before[1].dtype and g.domain == before[2]
+                and np.array_equal(g.points, before[0], equal_nan=True) and np.array_equal(g.weights, before[1], equal_nan=True)):
+            out.append(("input-modified", ci, where + ": the caller's grid was changed by the call: weights %r -> %r, points %r -> %r"
+                        % (ws[:4], [float(v) for v in g.weights[:4]], xs[:4], [float(v) for v in g.points[:4]])))
+        if g.domain is None:
+            continue        # no statement of the property (the code fails with TypeError at oned_grid.domain[0])
+        glo, ghi = float(g.domain[0]), float(g.domain[1])
+        tlo, thi = float(T.domain[0]), float(T.domain[1])
+        if glo < tlo or ghi > thi:
+            if tag == "ok":
+                out.append(("guard", ci, where + ": the grid's domain sticks out of the transform's domain (%r, %r) but a grid was returned" % (tlo, thi)))
+            continue
+        n = len(xs)
+        b = None
+        if cls in C04_B_CLS:
+            if spec.get("b_none"):
+                if bref[ti] is None:
+                    if n == 0 or abs(max(xs)) < 1e-16:
+                        if tag == "ok":
+                            out.append(("b-zero", ci, where + ": b cannot be inferred (maximum of the points is zero) but a grid was returned"))
+                        continue
+                    bref[ti] = max(xs)
+                b = bref[ti]
+                got_b = (T._tfm if inv else T).b
+                if got_b is None or float(got_b) != b:
+                    out.append(("b-state", ci, where + ": parameter b of the object is %r, the maximum of the first array it transformed is %r" % (got_b, b)))
+            else:
+                b = spec["ps"][2]
+        Th = twin(spec, b)
+        meth = "inverse" if inv else "transform"
+
+        def rmap(x):
+            try:
+                v = hp_call(Th, meth, x)
+            except Exception:
+                return mpf("nan")
+            return v if isinstance(v, mpf) else mpf("nan")
+        pscale = max([1.0] + [abs(float(p)) for p in spec["ps"] if abs(float(p)) < 1e300])
+        if tag != "ok":
+            legit = None
+            if cls == "HyperbolicRTransform" and (spec["ps"][1] * (n - 1) >= 1.0 or spec["ps"][1] >= 1.0):
+                legit = "size guard of HyperbolicRTransform"
+            elif cls == "HyperbolicRTransform" and not inv and any(x * spec["ps"][1] >= 1.0 for x in xs):
+                legit = "node beyond the pole 1/b"
+            elif any(x < glo or x > ghi or x != x for x in xs):
+                legit = "node outside the grid's own domain"
+            elif cls in C04_HAS_TRIM and spec.get("trim") and not inv and tag == "ValueError" and \
+                    any(mpmath.isfinite(v) and abs(v) > 1e16 for v in [rmap(x) for x in xs]):
+                big = max(abs(v) for v in [rmap(x) for x in xs] if mpmath.isfinite(v))
+                out.append(("trim-overflow", ci, where + ": raised ValueError although the domains match: a node has the finite image %s, above the "
+                            "1e16 that replaces the infinite end of the new domain" % mpmath.nstr(big, 8)))
+                continue
+            elif tag == "ZeroDivisionError" and inv:
+                dlo, dhi = float(T._tfm.domain[0]), float(T._tfm.domain[1])
+                dhi = dhi if abs(dhi) < 1e300 else dlo + 1.0
+                probe = [hp_call(Th, "transform", t) for t in (dlo + 0.25 * (dhi - dlo), dlo + 0.5 * (dhi - dlo), dlo + 0.75 * (dhi - dlo))]
+                if probe[0] == probe[1] == probe[2]:
+                    legit = "wrapped map is constant"
+                else:
+                    for x in xs:
+                        pre = rmap(x)
+                        d = diff(lambda y: hp_call(Th, "transform", y), pre) if mpmath.isfinite(pre) else None
+                        if d is None or abs(d) < 1e-8 * pscale:
+                            legit = "wrapped first derivative vanishes at a node"
+                            break
+            if legit is None:
+                out.append(("rejected", ci, where + ": raised %s although the grid's domain lies in the transform's domain (%r, %r) and every "
+                            "node lies in the grid's domain" % (tag, tlo, thi)))
+            continue
+        if inv:
+            dlo, dhi = float(T._tfm.domain[0]), float(T._tfm.domain[1])
+            dhi = dhi if abs(dhi) < 1e300 else dlo + 1.0
+            probe = [hp_call(Th, "transform", t) for t in (dlo + 0.25 * (dhi - dlo), dlo + 0.5 * (dhi - dlo), dlo + 0.75 * (dhi - dlo))]
+            if probe[0] == probe[1] == probe[2]:
+                if not (np.all(np.isnan(h.points)) or np.all(np.isnan(h.weights))):
+                    out.append(("zero-deriv-accepted", ci, where + ": the wrapped map is constant (no inverse) but a grid with numbers was returned: points %r" % ([float(v) for v in h.points[:4]],)))
+                continue
+        if h.size != n or len(h.weights) != n:
+            out.append(("size", ci, where + ": %d nodes in, %d points / %d weights out" % (n, h.size, len(h.weights))))
+            continue
+        u = 6e-8 if g.points.dtype == np.float32 else 2.3e-16
+        rt_p, rt_w = max(1e-9, 64 * u), max(1e-7, 256 * u)
+        idx = list(range(n)) if n <= max_nodes else sorted(set(int(round(k * (n - 1) / (max_nodes - 1))) for k in range(max_nodes)))
+        seen = set()
+        for i in idx:
+            x, w = xs[i], ws[i]
+            r = rmap(x)
+            gp, gw = float(h.points[i]), float(h.weights[i])
+            if mpmath.isnan(r):
+                continue
+            if mpmath.isinf(r) or abs(r) >= 1e15:
+                if not (abs(gp) > 1e12 and (gp > 0) == (r > 0)) and "points" not in seen:
+                    seen.add("points")
+                    out.append(("points", ci, where + ": new point %d is %r, r(%r) = %s" % (i, gp, x, mpmath.nstr(r, 8))))
+                continue
+            d1 = diff(rmap, x)
+            cond = abs(d1) * 16 * u * (1 + abs(x)) if d1 is not None else 0
+            if not (gp == gp and abs(mpf(gp) - r) <= rt_p * max(1, abs(r), pscale) + cond) and "points" not in seen:
+                seen.add("points")
+                out.append(("points", ci, where + ": new point %d is %r, the map of this transform object gives r(%r) = %s" % (i, gp, x, mpmath.nstr(r, 17))))
+            if d1 is None or abs(d1) >= 1e15:
+                continue
+            want = abs(d1) * mpf(w)
+            tol = rt_w * abs(want) + mpf(10) ** -25 * pscale * abs(w) + mpf(10) ** -300        # second term: noise floor of mpmath.diff
+            if not (gw == gw and abs(mpf(gw) - want) <= tol):
+                d2 = diff(rmap, x, 2)
+                if d2 is not None:
+                    tol += abs(d2) * 64 * u * (1 + abs(x)) * abs(w)
+            if not (gw == gw and abs(mpf(gw) - want) <= tol):
+                if d1 < 0 and gw == gw and abs(mpf(gw) + want) <= tol:
+                    kind, why = "sign", " (the weight carries the sign of the decreasing map)"
+                else:
+                    kind, why = "weights", ""
+                if kind not in seen:
+                    seen.add(kind)
+                    out.append((kind, ci, where + ": new weight %d is %r, |r'(x)| w = |%s| * %r = %s%s"
+                                % (i, gw, mpmath.nstr(d1, 12), w, mpmath.nstr(want, 17), why)))
+        lo_, hi_ = float(h.domain[0]), float(h.domain[1])
+        ilo, ihi = rmap(glo), rmap(ghi)
+        if lo_ != lo_ or hi_ != hi_:
+            out.append(("domain-nan", ci, where + ": new domain (%r, %r) holds a nan (images of the old ends: %s, %s)" % (lo_, hi_, mpmath.nstr(ilo, 8), mpmath.nstr(ihi, 8))))
+            continue
+        if not lo_ <= hi_:
+            out.append(("domain", ci, where + ": new domain (%r, %r) is not ordered" % (lo_, hi_)))
+        if not (mpmath.isnan(ilo) or mpmath.isnan(ihi)):
+            e = sorted([ilo, ihi])
+            if not (same(lo_, e[0], pscale) and same(hi_, e[1], pscale)):
+                out.append(("domain", ci, where + ": new domain (%r, %r), ordered image of the old ends (%s, %s)" % (lo_, hi_, mpmath.nstr(e[0], 17), mpmath.nstr(e[1], 17))))
+        for i in range(n):
+            gp = float(h.points[i])
+            if gp == gp and abs(gp) < 1e300 and not (lo_ - slack - 1e-15 * abs(lo_) <= gp <= hi_ + slack + 1e-15 * abs(hi_)):
+                out.append(("containment", ci, where + ": new node %d = %r lies outside the new domain (%r, %r) by more than the slack 1e-7" % (i, gp, lo_, hi_)))
+                break
+    return out
+'''
+_PROP_NS = {}
+exec(PROP_SRC, _PROP_NS)
+c04_check_script = _PROP_NS["c04_check_script"]
+
+SNIPPET_SCRIPT = """
+import warnings; warnings.filterwarnings('ignore')
+import numpy as np
+from grid import rtransform as rt
+from grid.basegrid import OneDGrid
+inf, nan = float('inf'), float('nan')
+script = {script!r}
+bad = [b for b in c04_check_script(script, rt, OneDGrid, HP, hp_call, mpmath, max_nodes={max_nodes}) if b[0] == {kind!r}]
+assert not bad, bad[0][2]
+"""
+
+SNIPPET_CTOR = """import warnings; warnings.filterwarnings('ignore')
+import numpy as np
+from grid.basegrid import OneDGrid
+inf, nan = float('inf'), float('nan')
+points, weights, domain = np.array({points!r}, dtype=float), np.array({weights!r}, dtype=float), {domain!r}
+try:
+    OneDGrid(points, weights, domain); accepted = True
+except ValueError:
+    accepted = False
+out = max([0.0] + [domain[0] - p for p in points] + [p - domain[1] for p in points])
+if accepted:
+    assert out <= 1.0000001e-7, f'OneDGrid accepted a node {{out}} outside its domain {{domain}} (slack of the domain check: 1e-7)'
+else:
+    assert out > 0 or domain[0] > domain[1] or len(points) != len(weights) or len(points) == 0, f'OneDGrid rejected nodes {{points}} inside the domain {{domain}}'
+"""
+
+
+def _hp():
+    """the 40-digit number class and helpers of C03 (imported lazily: it sets mpmath's precision)"""
+    return importlib.import_module("harness.props.c03" if __package__ is None else __package__ + ".c03")
+
+
+def _plain(x):
+    """numpy scalars -> Python numbers (infinities and nan stay floats, unlike common.jsonable)"""
+    if isinstance(x, (list, tuple)):
+        return [_plain(v) for v in x]
+    if isinstance(x, np.ndarray):
+        return [_plain(v) for v in x.tolist()]
+    if isinstance(x, (bool, np.bool_)):
+        return bool(x)
+    if isinstance(x, (int, np.integer)):
+        return int(x)
+    if isinstance(x, (float, np.floating)):
+        return float(x)
+    return x
+
+
+def _unjson(x):
+    """inverse of common.jsonable on witnesses: the strings 'inf', '-inf', 'nan' are floats again"""
+    if isinstance(x, dict):
+        return {k: _unjson(v) for k, v in x.items()}
+    if isinstance(x, list):
+        return [_unjson(v) for v in x]
+    if x in ("inf", "-inf", "nan"):
+        return float(x)
+    return x
+
+
+def _spec_tf(cls, ps, trim=False, inv=False, b_none=False, ptypes=None):
+    ps = _plain(list(ps))
+    return {"cls": cls, "ps": ps, "trim": bool(trim), "inv": bool(inv), "b_none": bool(b_none),
+            "ptypes": ptypes or ["int" if isinstance(p, int) else "float" for p in ps]}
+
+
+def _spec_grid(points, weights, domain, pdtype=None, wdtype=None, layout="plain"):
+    pdtype = pdtype or (str(points.dtype) if isinstance(points, np.ndarray) else "float64")
+    wdtype = wdtype or (str(weights.dtype) if isinstance(weights, np.ndarray) else "float64")
+    return {"points": _plain(points), "weights": _plain(weights), "domain": None if domain is None else _plain(list(domain)),
+            "pdtype": pdtype, "wdtype": wdtype, "layout": layout}
+
+
+def _spec_rule(name, n):
+    g = make_rule(name, n)
+    return _spec_grid(g.points, g.weights, g.domain)
+
+
+def _tf_domain(spec):
+    d = _PROP_NS["c04_build_tf"](rt(), spec).domain
+    return float(d[0]), float(d[1])
+
+
+def _int_params(cls, rng):
+    """small integer-valued (Hyperbolic: dyadic) parameters: exact as Python int, np.int64, np.float32, np.float64"""
+    if cls in ("BeckeRTransform", "MultiExpRTransform"):
+        return [rng.choice([0, 1, 2]), rng.choice([1, 2, 3])]
+    if cls == "LinearFiniteRTransform":
+        a = rng.choice([0, 1, -1])
+        return [a, a + rng.choice([1, 2, 5])]
+    if cls in ("KnowlesRTransform", "HandyRTransform"):
+        return [rng.choice([0, 1]), rng.choice([1, 2]), rng.choice([1, 2, 3, 4])]
+    if cls == "HandyModRTransform":
+        m = rng.choice([1, 2, 3, 4])
+        rmin = rng.choice([0, 1])
+        return [rmin, rmin + 2 ** m + rng.choice([1, 4, 10]), m]
+    if cls == "IdentityRTransform":
+        return []
+    if cls in B_CLS:
+        rmin = rng.choice([1, 2])
+        return [rmin, rmin + rng.choice([1, 3, 10]), rng.choice([1, 2, 4, 8])]
+    if cls == "HyperbolicRTransform":
+        return [rng.choice([1, 2, 3]), rng.choice([0.0625, 0.03125, 0.015625])]
+    raise KeyError(cls)
+
+
+def _r2_params(cls, rng, k):
+    """parameters with exponents over [0.5, 8] (EXPO_LIST[k]), rmin = 0 and large scale factors included"""
+    rmin = rng.choice([0.0, 0.0, 1e-3, 0.5, 2.0])
+    trim = rng.random() < 0.5
+    if cls in ("BeckeRTransform", "MultiExpRTransform"):
+        return [rmin, rng.choice([0.5, 1.5, 10.0, 1e3])], trim
+    if cls in ("KnowlesRTransform", "HandyRTransform"):
+        return [rmin, rng.choice([0.5, 1.5, 10.0, 1e3]), EXPO_LIST[k % len(EXPO_LIST)]], trim
+    if cls == "HandyModRTransform":
+        m = EXPO_LIST[k % len(EXPO_LIST)]
+        return [rmin, rmin + 2.0 ** m - 1 + rng.choice([0.2, 3.0, 30.0, 1e3]), m], trim
+    if cls == "LinearFiniteRTransform":
+        w = rng.choice([0.5, 2.0, 20.0, 1e3])
+        return ([rmin + w, rmin] if rng.random() < 0.2 else [rmin, rmin + w]), False
+    if cls == "IdentityRTransform":
+        return [], False
+    if cls in B_CLS:
+        if cls != "LinearInfiniteRTransform" and rmin == 0.0:
+            rmin = 1e-3
+        return [rmin, rmin + rng.choice([0.5, 5.0, 100.0]), rng.choice([1.0, 4.0, 10.0, 37.5])], False
+    if cls == "HyperbolicRTransform":
+        return [rng.choice([0.1, 1.0, 5.0, 1e3]), None], False          # b is chosen after the grid
+    raise KeyError(cls)
+
+
+def _r2_interval(rng, tlo, thi):
+    """a grid domain inside the transform's domain (tlo, thi): the whole of it or a sub-interval"""
+    if tlo > thi:
+        tlo, thi = thi, tlo
+    if math.isinf(thi):
+        lo = tlo if rng.random() < 0.4 else tlo + round(rng.uniform(0.0, 2.0), 3)
+        return lo, lo + round(rng.uniform(0.5, 8.0), 3)
+    if rng.random() < 0.4 or thi - tlo <= 0:
+        return tlo, thi
+    a, b = sorted([rng.uniform(tlo, thi), rng.uniform(tlo, thi)])
+    if b - a < 0.1 * (thi - tlo):
+        a, b = tlo + 0.2 * (thi - tlo), tlo + 0.7 * (thi - tlo)
+    return a, b
+
+
+def _r2_nodes(rng, lo, hi, m, ends=False, order=None, wkind=None, margin=0.02, f32=False):
+    """m nodes in [lo, hi] in one of the orders sorted / reversed / shuffled / repeated, weights positive / mixed / with
+    zeros; `ends`: the first and last node sit exactly on lo and hi"""
+    L = hi - lo
+    pts = sorted(rng.uniform(lo + margin * L, hi - margin * L) for _ in range(m))
+    if ends and m >= 1:
+        pts[0] = lo
+        if m >= 2:
+            pts[-1] = hi
+    order = order or rng.choice(["sorted", "reversed", "shuffled", "repeated"])
+    if order == "reversed":
+        pts = pts[::-1]
+    elif order == "shuffled":
+        rng.shuffle(pts)
+    elif order == "repeated" and m >= 2:
+        pts[rng.randrange(m)] = pts[rng.randrange(m)]
+        if rng.random() < 0.5:
+            rng.shuffle(pts)
+    wts = [rng.uniform(0.05, 1.0) for _ in range(m)]
+    wkind = wkind or rng.choice(["positive", "positive", "mixed", "zeros"])
+    if wkind in ("mixed", "zeros"):
+        for i in range(m):
+            v = rng.random()
+            if wkind == "mixed" and v < 0.4:
+                wts[i] = -wts[i]
+            elif v < 0.3:
+                wts[i] = 0.0 if rng.random() < 0.7 else -0.0
+    if f32:
+        pts = [float(np.float32(p)) for p in pts]
+        pts = [min(max(p, lo), hi) for p in pts]
+    return pts, wts, order, wkind
+
+
+def _r2_single(rng, cls, inv, k, ends=None, m=None, style=None):
+    """one script with one transform object (extreme parameters, class `cls`, wrapped in InverseRTransform if `inv`) and
+    one hand-built grid on (a sub-interval of) its domain.  style: None | 'b_none' | dtype/container variant"""
+    if style in ("int", "np.int64", "np.float32", "np.float64"):
+        ps, trim = _int_params(cls, rng), rng.random() < 0.5
+        if style in ("int", "np.int64") and cls == "HyperbolicRTransform":
+            style = "np.float64"
+        if style == "np.float32" and (cls in ("ExpRTransform", "PowerRTransform") or inv):
+            style = "np.float64"         # scalar sub-expressions (log(rmax/rmin), 1/k, R**(1/m)) of float32 parameters are evaluated in float32
+        ptypes = [style] * len(ps)
+    else:
+        ps, trim = _r2_params(cls, rng, k)
+        ptypes = None
+    m = m if m is not None else rng.choice([1, 2, 3, 5, 8])
+    b_none = style == "b_none" and cls in B_CLS
+    hyper_b = None
+    if cls == "HyperbolicRTransform" and ps[1] is None:
+        ps[1] = 0.01           # placeholder, fixed below once the grid is known
+        hyper_b = True
+    if b_none:
+        ps = ps[:2]
+    spec = _spec_tf(cls, ps, trim if cls in HAS_TRIM else False, inv, b_none, ptypes)
+    tlo, thi = _tf_domain(spec)
+    lo, hi = _r2_interval(rng, tlo, thi)
+    if ends is None:
+        ends = rng.random() < 0.2 and not inv
+    pts, wts, order, wkind = _r2_nodes(rng, lo, hi, m, ends=ends)
+    if hyper_b:
+        top = max([abs(p) for p in pts] + [hi if not inv else 0.0, 1.0])
+        spec["ps"][1] = round(rng.uniform(0.1, 0.9) * min(1.0 / max(m - 1, 1), 1.0 / top), 6)
+    return {"tfs": [spec], "grids": [_spec_grid(pts, wts, (lo, hi))], "calls": [[0, 0]]}, f"{order}:{wkind}" + (":ends" if ends else "")
+
+
+def _r2_scripts(ctx, rng, purpose):
+    """-> list of (category, script).  `purpose`: 'corr' (more and larger) or 'oracle' (every call costs 40-digit arithmetic)"""
+    scripts = []
+    thorough = ctx.thorough
+    reps = (40 if thorough else 10) if purpose == "corr" else (6 if thorough else 3)
+    off = rng.randrange(len(EXPO_LIST))
+    # (4)(5) every class, plain and wrapped in InverseRTransform, extreme parameters, hand-built grids (any order,
+    #        negative and zero weights, one-point grids, repeated nodes, nodes on the ends)
+    k = 0
+    for rep in range(reps):
+        for cls in FINITE_TF + INF_TF:
+            for inv in (False, True):
+                for j in range(2 if cls in ("KnowlesRTransform", "HandyRTransform", "HandyModRTransform") else 1):
+                    # consecutive entries of EXPO_LIST: an integer >= 3 and a fractional exponent in every run
+                    s, note = _r2_single(rng, cls, inv, off + 2 * rep + j, style="b_none" if (cls in B_CLS and (k + rep) % 2 == 0) else None)
+                    scripts.append((f"single:{'inverse:' if inv else ''}{cls}:{note}", s))
+                    k += 1
+    # (2) dtype / container / kind of the parameters
+    for rep in range(reps):
+        for cls in FINITE_TF + INF_TF:
+            inv = rng.random() < 0.3
+            style = rng.choice(["int", "np.int64", "np.float32", "np.float64"])
+            s, note = _r2_single(rng, cls, inv, 0, ends=False, m=rng.choice([2, 3, 5]), style=style)
+            gs = s["grids"][0]
+            var = rng.choice(["f32-points", "f32-weights", "int-weights", "readonly", "strided", "negstride", "int-points"])
+            if var == "f32-points":
+                lo, hi = gs["domain"]
+                L = hi - lo
+                gs["points"] = [min(max(float(np.float32(p)), lo + 0.03 * L), hi - 0.03 * L) for p in gs["points"]]
+                gs["points"] = [float(np.float32(p)) for p in gs["points"]]
+                gs["pdtype"] = "float32"
+            elif var == "f32-weights":
+                gs["weights"] = [float(np.float32(w)) for w in gs["weights"]]
+                gs["wdtype"] = "float32"
+            elif var == "int-weights":
+                gs["weights"] = [rng.choice([-1, 0, 1, 2, 3]) for _ in gs["weights"]]
+                gs["wdtype"] = "int64"
+            elif var == "int-points":
+                lo, hi = gs["domain"]
+                cand = [v for v in range(int(math.ceil(lo)), int(math.floor(min(hi, lo + 12))) + 1)]
+                if cand:
+                    gs["points"] = [rng.choice(cand) for _ in gs["points"]]
+                    gs["pdtype"] = "int64"
+                    if s["tfs"][0]["cls"] == "HyperbolicRTransform" and not inv:
+                        s["tfs"][0]["ps"][1] = min(s["tfs"][0]["ps"][1], 0.03125)
+                else:
+                    var = "plain"
+            else:
+                gs["layout"] = var
+            scripts.append((f"dtype:{'inverse:' if inv else ''}{cls}:params-{style}:{var}", s))
+    # (1)(3) state between calls: shared objects, overlapping arguments, other arguments in between, rebuilt objects
+    nseq = (30 if thorough else 8) if purpose == "corr" else (6 if thorough else 3)
+    hi_n = (40 if purpose == "corr" else 9)
+    for rep in range(nseq):
+        # finite domain: two classes and two parameter sets of one class, rules of equal and different sizes
+        c1, c2 = rng.sample(FINITE_TF, 2)
+        p1, t1 = _r2_params(c1, rng, off + rep)
+        p1b, _ = _r2_params(c1, rng, off + rep + 1)
+        p2, t2 = _r2_params(c2, rng, off + rep + 2)
+        tfs = [_spec_tf(c1, p1, t1 if c1 in HAS_TRIM else False), _spec_tf(c2, p2, t2 if c2 in HAS_TRIM else False),
+               _spec_tf(c1, p1b, t1 if c1 in HAS_TRIM else False), _spec_tf(c1, p1, t1 if c1 in HAS_TRIM else False)]
+        r1, r2 = rng.sample(sorted(r for r in FINITE_RULES if FINITE_RULES[r](5) and FINITE_RULES[r](7)), 2)
+        n = rng.choice([5, 7]) if rng.random() < 0.6 else rng.choice([n_ for n_ in range(3, hi_n + 1) if FINITE_RULES[r1](n_) and FINITE_RULES[r2](n_)])
+        n2 = rng.choice([n_ for n_ in range(2, hi_n + 1) if n_ != n and FINITE_RULES[r1](n_)])
+        hand, hw, _, _ = _r2_nodes(rng, -1.0, 1.0, n, order="shuffled", wkind="mixed")
+        hand2, hw2, _, _ = _r2_nodes(rng, -1.0, 1.0, n, order="shuffled", wkind="positive")       # the caller's later edit of grid 4
+        both, _, _, _ = _r2_nodes(rng, -1.0, 1.0, n, order="sorted")                               # grid 5: one array is points and weights
+        both2, _, _, _ = _r2_nodes(rng, -1.0, 1.0, n, order="reversed")
+        grids = [_spec_rule(r1, n), _spec_rule(r2, n), _spec_rule(r1, n), _spec_rule(r1, n2), _spec_grid(hand, hw, (-1.0, 1.0)),
+                 _spec_grid(both, both, (-1.0, 1.0), layout="same-array")]
+        calls = [[0, 0], [1, 0], [0, 0], [2, 0], [0, 1], [1, 1], [3, 2], [0, 4], [1, 4], [0, 3], [1, 3], [0, 0], [2, 4], [0, 5], [1, 5],
+                 ["edit", 4, hand2, hw2], [0, 4], [1, 4], ["edit", 5, both2, both2], [1, 5], [0, 5], [0, 0]]
+        scripts.append((f"state:finite:{c1}+{c2}", {"tfs": tfs, "grids": grids, "calls": calls}))
+        # half-infinite domain: b left open (inferred from the first array seen and kept), explicit b, other classes in between
+        specs = []
+        for c in B_CLS:
+            p, _ = _r2_params(c, rng, 0)
+            specs.append(_spec_tf(c, p[:2], b_none=True))
+        p, _ = _r2_params("LinearInfiniteRTransform", rng, 0)
+        specs.append(_spec_tf("LinearInfiniteRTransform", p))
+        specs.append(_spec_tf("IdentityRTransform", []))
+        specs.append(_spec_tf(B_CLS[rep % 3], specs[rep % 3]["ps"], b_none=True, inv=True))
+        na, nb = rng.sample([n_ for n_ in range(3, hi_n + 1, 2)], 2)
+        ra = rng.choice(sorted(INF_RULES))
+        lo, hi = specs[rep % 3]["ps"]
+        hand, hw, _, _ = _r2_nodes(rng, lo, hi, rng.choice([1, 3, 4]), order="shuffled")
+        grids = [_spec_rule("UniformInteger", na), _spec_rule("UniformInteger", nb), _spec_rule(ra, na), _spec_rule("UniformInteger", na),
+                 _spec_grid(hand, hw, (lo, hi))]
+        first = rng.choice([0, 1, 2])
+        calls = [[0, first], [0, (first + 1) % 3], [1, (first + 1) % 3], [1, first], [4, 2], [2, 2], [2, 0], [3, 0], [0, 3], [0, first], [1, 1], [2, 1],
+                 [5, 4], [5, 4], [0, 4]]
+        scripts.append((f"state:half-infinite:b-inferred", {"tfs": specs, "grids": grids, "calls": calls}))
+    # (4) a map without inverse: ZeroDivisionError path of InverseRTransform
+    for cls, ps in (("LinearFiniteRTransform", [1.0, 1.0]), ("LinearFiniteRTransform", [2, 2]), ("HandyModRTransform", [0.5, 0.5, 2])):
+        pts, wts, _, _ = _r2_nodes(rng, ps[0], ps[0], rng.choice([1, 3]), order="sorted", wkind="positive")
+        scripts.append((f"zero-derivative:inverse:{cls}", {"tfs": [_spec_tf(cls, ps, False, True)], "grids": [_spec_grid(pts, wts, (ps[0], ps[0]))], "calls": [[0, 0]]}))
+        pts, wts, _, _ = _r2_nodes(rng, -1.0, 1.0, 3, order="sorted", wkind="positive")
+        scripts.append((f"zero-derivative:{cls}", {"tfs": [_spec_tf(cls, ps, False, False), _spec_tf(cls, ps, False, True)],
+                                                   "grids": [_spec_grid(pts, wts, (-1.0, 1.0))], "calls": [[0, 0]]}))
+    # (3) nodes on the ends of [-1, 1] (poles of Becke/Handy/Knowles/MultiExp), trimming on and off; the Lobatto and
+    #     trapezoid rules as they are
+    for cls in ("BeckeRTransform", "HandyRTransform", "KnowlesRTransform", "MultiExpRTransform", "HandyModRTransform", "LinearFiniteRTransform"):
+        for trim in (True, False):
+            ps, _ = _r2_params(cls, rng, off + (1 if trim else 0))
+            pts, wts, _, _ = _r2_nodes(rng, -1.0, 1.0, rng.choice([2, 3, 4]), ends=True, order=rng.choice(["sorted", "reversed", "shuffled"]))
+            scripts.append((f"ends:{cls}:trim={trim}", {"tfs": [_spec_tf(cls, ps, trim if cls in HAS_TRIM else False)], "grids": [_spec_grid(pts, wts, (-1.0, 1.0))],
+                                                        "calls": [[0, 0]]}))
+        ps, trim = _r2_params(cls, rng, off + 3)
+        scripts.append((f"ends:{cls}:rule", {"tfs": [_spec_tf(cls, ps, trim if cls in HAS_TRIM else False)],
+                                             "grids": [_spec_rule(rng.choice(["GaussChebyshevLobatto", "Trapezoidal", "ClenshawCurtis"]), rng.choice([2, 3, 6]))],
+                                             "calls": [[0, 0]]}))
+    # (3) nodes outside the grid's own domain by about the slack of OneDGrid, magnified or not by the map
+    for rep in range(reps * 3):
+        a = rng.choice([0.0, -2.0, 1.5])
+        slope = rng.choice([0.25, 0.5, 1.0, 1.5, 4.0, 20.0])
+        dlt = rng.choice([5e-8, 9.9e-8])
+        side = rng.random() < 0.5
+        pts = [-1.0 - dlt if side else -0.4, 0.3, 1.0 + dlt if not side else 0.8]
+        scripts.append((f"slack:LinearFiniteRTransform:slope={slope}", {"tfs": [_spec_tf("LinearFiniteRTransform", [a, a + 2 * slope])],
+                                                                         "grids": [_spec_grid(pts, [0.5, 1.0, 0.5], (-1.0, 1.0))], "calls": [[0, 0]]}))
+    # (5) large rules (thorough tier; correspondence only compares, the oracle samples the nodes)
+    if thorough:
+        for n in ([201, 401, 1001] if purpose == "corr" else [201]):
+            for cls in rng.sample(FINITE_TF, 3):
+                ps, trim = _r2_params(cls, rng, rng.randrange(12))
+                rule = rng.choice(["GaussLegendre", "GaussChebyshev", "ClenshawCurtis", "TanhSinh", "Simpson"])
+                scripts.append((f"large-n:{cls}", {"tfs": [_spec_tf(cls, ps, trim if cls in HAS_TRIM else False)], "grids": [_spec_rule(rule, n)], "calls": [[0, 0]]}))
+    return scripts
+
+
+def _line_raw(inv, cls, ps, trim, tfdom, dom, pts, wts):
+    return (f"C04.transform {1 if inv else 0} {cls} {1 if trim else 0} {fvec([float(p) for p in ps])} "
+            f"{f2b(tfdom[0])} {f2b(tfdom[1])} "
+            + (f"1 {f2b(dom[0])} {f2b(dom[1])} " if dom is not None else f"0 {f2b(0.0)} {f2b(0.0)} ")
+            + f"{fvec(pts)} {fvec(wts)}")
+
+
+def _unchanged(g, before):
+    return (g.points.dtype == before[0].dtype and g.weights.dtype == before[1].dtype and g.domain == before[2]
+            and np.array_equal(g.points, before[0], equal_nan=True) and np.array_equal(g.weights, before[1], equal_nan=True))
+
+
+def _corr_scripts(ctx: Ctx, scripts):
+    """every call of every script on the implementation (in order, on shared objects) and on the stateless Lean model"""
+    R, G = rt(), OneDGrid()
+    build_tf, build_grid = _PROP_NS["c04_build_tf"], _PROP_NS["c04_build_grid"]
+    plans, lines = [], []
+    for cat, script in scripts:
+        try:
+            tfs = [build_tf(R, s) for s in script["tfs"]]
+            grids = [build_grid(G, s) for s in script["grids"]]
+        except ValueError:
+            continue        # inadmissible parameters / hand-built grid rejected by the constructor (covered by C04.onedgrid)
+        bref = [None] * len(tfs)
+        brefs = []
+        vals = [([float(v) for v in g.points], [float(v) for v in g.weights]) for g in grids]   # contents, followed through the edits
+        for call in script["calls"]:
+            if call[0] == "edit":
+                same = grids[call[1]].weights is grids[call[1]].points
+                vals[call[1]] = ([float(v) for v in call[2]], [float(v) for v in (call[2] if same else call[3])])
+                brefs.append(None)
+                continue
+            ti, gi = call
+            spec, T, g = script["tfs"][ti], tfs[ti], grids[gi]
+            xs, ws_ = vals[gi]
+            ps = [float(p) for p in spec["ps"]]
+            if spec["cls"] in B_CLS and spec["b_none"]:
+                passes = g.domain is not None and not (g.domain[0] < T.domain[0] or g.domain[1] > T.domain[1])
+                if bref[ti] is None and passes and xs and abs(max(xs)) >= 1e-16:
+                    bref[ti] = max(xs)          # stateless reference: b = maximum of the first array transformed
+                if bref[ti] is None and passes:
+                    bref[ti] = "no-b"           # b cannot be inferred (maximum zero): ValueError, the model is not asked
+                ps = ps + [bref[ti] if isinstance(bref[ti], float) else 1.0]
+            brefs.append(bref[ti])
+            if bref[ti] == "no-b":
+                bref[ti] = None
+            lines.append(_line_raw(spec["inv"], spec["cls"], ps, spec["trim"], T.domain, g.domain, xs, ws_))
+        plans.append((cat, script, tfs, grids, brefs))
+    answers = iter(driver_batch(lines))
+    for cat, script, tfs, grids, brefs in plans:
+        for ci, call in enumerate(script["calls"]):
+            if call[0] == "edit":       # the caller edits the arrays of one of its grids in place
+                g = grids[call[1]]
+                g.points[...] = np.array(call[2], dtype=g.points.dtype)
+                if g.weights is not g.points:
+                    g.weights[...] = np.array(call[3], dtype=g.weights.dtype)
+                continue
+            ti, gi = call
+            spec, T, g, ans = script["tfs"][ti], tfs[ti], grids[gi], next(answers)
+            cls, inv = spec["cls"], spec["inv"]
+            before = (g.points.copy(), g.weights.copy(), g.domain)
+            itag, h = _impl(T, g, keyword=ci % 2 == 1)
+            f32 = g.points.dtype == np.float32
+            base = T._tfm if inv else None
+            cond = None
+            if itag == "ok":
+                cond = _conditioning(T, g, base, eps=6e-8 if f32 else 2.220446049250313e-16)
+            if brefs[ci] == "no-b":
+                bad = None if itag == "value-error" else f"b cannot be inferred (maximum of the points is zero): implementation {itag}, expected value-error"
+            else:
+                bad = _compare(itag, h, ans, rtol=2e-5 if f32 else 1e-9, cond=cond)
+            if not bad and not _unchanged(g, before):
+                bad = (f"the caller's grid was changed by the call (weights {before[1][:3].tolist()} -> {g.weights[:3].tolist()}, "
+                       f"points {before[0][:3].tolist()} -> {g.points[:3].tolist()})")
+            if not bad and spec["b_none"] and isinstance(brefs[ci], float):
+                got_b = (T._tfm if inv else T).b
+                if got_b is None or float(got_b) != brefs[ci]:
+                    bad = f"parameter b of the object is {got_b!r}; the maximum of the first array it transformed is {brefs[ci]!r}"
+            desc = [cat, ci, ("inverse:" if inv else "") + cls, spec["ps"], spec["trim"], before[0][:8].tolist(), script["grids"][gi]["domain"]]
+            ctx.count(desc, nontrivial=g.size >= 2 or itag != "ok",
+                      tag="r2:" + cat.split(":")[0] + ":" + ("inverse:" if inv else "") + cls + (":" + itag if itag != "ok" else ""))
+            if bad:
+                cut = dict(script, calls=script["calls"][:ci + 1])
+                ctx.fail("corr", f"transform_1d_grid:{cls}", f"transform_1d_grid [{cat}] call {ci} of {script['calls']}: "
+                         f"{'InverseRTransform of ' if inv else ''}{cls}{tuple(spec['ps'])}: {bad}",
+                         witness={"case": desc, "script": cut, "points": g.points, "weights": g.weights, "domain": _dom(g.domain),
+                                  "tf_domain": [float(x) for x in T.domain], "disagreement": bad})
+
+
+def _corr_not_a_grid(ctx: Ctx):
+    """the argument check in front of everything (Gen/Transform1D.hasTypeCheck): anything but a OneDGrid is a TypeError,
+    whatever the transform (positional and keyword call)"""
+    base = importlib.import_module("grid.basegrid")
+    pts = np.array([0.1, 0.5])
+    others = [("Grid", base.Grid(pts, np.array([1.0, 1.0]))), ("ndarray", pts), ("None", None), ("tuple", (pts, pts, (-1, 1))),
+              ("RadialGrid-like LocalGrid", base.LocalGrid(pts, np.array([1.0, 1.0]), 0.0))]
+    for cls in FINITE_TF + INF_TF:
+        ps = _int_params(cls, ctx.rng)
+        for inv in (False, True):
+            T = _PROP_NS["c04_build_tf"](rt(), _spec_tf(cls, ps, True, inv))
+            for k, (name, obj) in enumerate(others):
+                try:
+                    T.transform_1d_grid(oned_grid=obj) if k % 2 else T.transform_1d_grid(obj)
+                    got = "ok"
+                except TypeError:
+                    got = "type-error"
+                except Exception as e:      # noqa: BLE001 - any other exception is a disagreement
+                    got = type(e).__name__
+                ctx.count(["not-a-grid", cls, inv, name], nontrivial=False, tag="r2:not-a-grid:" + got)
+                if got != "type-error":
+                    ctx.fail("corr", "transform_1d_grid:type-check", f"{'InverseRTransform of ' if inv else ''}{cls}{tuple(ps)}.transform_1d_grid({name}): "
+                             f"{got}, expected TypeError (the isinstance check precedes everything)", witness={"class": cls, "argument": name})
+
+
+def _key_of(script, kind, ci):
+    spec = script["tfs"][script["calls"][ci][0]]
+    if kind == "sign":
+        return FINDING_KEY
+    if kind == "domain-nan" and spec["cls"] == "HyperbolicRTransform" and not spec["inv"]:
+        return HYP_KEY
+    return f"rtransform.transform_1d_grid:{'Inverse:' if spec['inv'] else ''}{spec['cls']}:{kind}"
+
+
+def _snippet_script(script, kind, max_nodes=48):
+    hp = _hp()
+    return hp.HP_SRC + PROP_SRC + SNIPPET_SCRIPT.format(script=script, kind=kind, max_nodes=max_nodes)
+
+
+def _oracle_scripts(ctx: Ctx, scripts, label="r2", max_nodes=48):
+    """the property itself on every call of every script; -> number of failures reported under a non-listed key"""
+    hp = _hp()
+    R, G = rt(), OneDGrid()
+    new = 0
+    for cat, script in scripts:
+        try:
+            bad = c04_check_script(script, R, G, hp.HP, hp.hp_call, hp.mpmath, max_nodes=max_nodes)
+        except ValueError:
+            ctx.tagc(f"oracle:{label}:inadmissible-script")
+            continue
+        ctx.tagc(f"oracle:{label}:{cat.split(':')[0]}", len(script["calls"]))
+        for kind, ci, msg in bad:
+            key = _key_of(script, kind, ci)
+            cut = dict(script, calls=script["calls"][:ci + 1])
+            if kind == "trim-overflow":
+                _candidate(ctx, TRIM_KEY, f"[{cat}] {msg}", witness={"category": cat, "script": cut, "kind": kind}, snippet=_snippet_script(cut, kind, max_nodes))
+                continue
+            ctx.fail("oracle", key, f"[{cat}] {msg}", witness={"category": cat, "script": cut, "kind": kind}, snippet=_snippet_script(cut, kind, max_nodes))
+            if key not in (FINDING_KEY, HYP_KEY):
+                new += 1
+    return new
+
+
+def _script_from_witness(w):
+    """the script of a correspondence witness (round-2 cases carry it; round-1 cases are rebuilt from `case`)"""
+    if isinstance(w.get("script"), dict):
+        return w["script"]
+    case = w.get("case")
+    if not isinstance(case, list) or "points" not in w:
+        return None
+    inv = "inverse" in case
+    try:
+        if case[0] == "OneDGrid":
+            cls, ps, trim = case[3], case[4], case[5]
+        else:
+            cls, ps, trim = case[2], case[3], case[4]
+        if cls not in FINITE_TF + INF_TF:
+            return None
+        return {"tfs": [_spec_tf(cls, ps, trim if cls in HAS_TRIM else False, inv)],
+                "grids": [_spec_grid(list(w["points"]), list(w["weights"]), w.get("domain"))], "calls": [[0, 0]]}
+    except (IndexError, TypeError, KeyError):
+        return None
+
+
+_AT = {"found": 0}
+
+
+def oracle_at(ctx: Ctx, failure):
+    """Evaluate the property itself at an input on which model and implementation disagreed."""
+    if _AT["found"] >= 3:
+        return
+    w = _unjson(failure.witness or {})
+    if not isinstance(w, dict):
+        return
+    if failure.key == "OneDGrid.__init__":
+        _AT["found"] += _oracle_ctor(ctx, w.get("points"), w.get("weights"), w.get("domain"))
+        return
+    script = _script_from_witness(w)
+    if script is None:
+        return
+    ctx.tagc("oracle:at-disagreement")
+    _AT["found"] += _oracle_scripts(ctx, [("at-disagreement", script)], label="at")
+
+
+def _oracle_ctor(ctx: Ctx, pts, wts, dom):
+    """OneDGrid(points, weights, domain): accepted iff every node lies in the domain up to the slack 1e-7"""
+    if pts is None or wts is None or dom is None or len(pts) == 0 or len(pts) != len(wts):
+        return 0
+    if any(p != p for p in pts) or any(abs(d) == float("inf") or d != d for d in dom) or dom[0] > dom[1]:
+        return 0
+    G = OneDGrid()
+    try:
+        G(np.array(pts, dtype=float), np.array(wts, dtype=float), tuple(dom))
+        accepted = True
+    except ValueError:
+        accepted = False
+    out = max([0.0] + [dom[0] - p for p in pts] + [p - dom[1] for p in pts])
+    ctx.tagc("oracle:constructor")
+    if (accepted and out > 1.0000001e-7) or (not accepted and out <= 0):
+        ctx.fail("oracle", "basegrid.OneDGrid:domain-check",
+                 f"OneDGrid({pts}, {wts}, {tuple(dom)}) was {'accepted' if accepted else 'rejected'}; its farthest node lies {out!r} outside the domain "
+                 "(the domain check tolerates 1e-7)", witness={"points": pts, "weights": wts, "domain": dom},
+                 snippet=SNIPPET_CTOR.format(points=list(pts), weights=list(wts), domain=tuple(dom)))
+        return 1
+    return 0
+
+
+def _candidate(ctx: Ctx, key, what, witness=None, snippet=None):
+    """behaviour of the unchanged library that a round-2 case exposed and that is not (yet) a listed finding: reported as
+    a failure once the lead lists the key in KNOWN_FINDINGS.txt, as an info line until then"""
+    from ..common import load_known_findings
+    if key in INFO_ONLY:
+        # judged by the lead against the wording of the property: outside its envelope — information, never a failure
+        ctx.tagc("oracle:information:" + key)
+        if not any(key in line for line in ctx.infos):
+            ctx.info(f"information (out of scope of C04, see INFO_ONLY) {key}: {what}")
+    elif key in load_known_findings("C04")[0]:
+        ctx.fail("oracle", key, what, witness=witness, snippet=snippet)
+    else:
+        ctx.tagc("oracle:candidate:" + key)
+        if not any(key in line for line in ctx.infos):
+            ctx.info(f"candidate finding (not listed) {key}: {what}")
+
+
+TRIM_KEY = "rtransform.transform_1d_grid:trim_inf:finite-image-beyond-1e16"
+BZERO_KEY = "rtransform.transform_1d_grid:inferred-b:zero-kept-after-rejection"
+INVNAN_KEY = "rtransform.transform_1d_grid:InverseRTransform:domain-nan"
+F32_KEY = "rtransform.transform_1d_grid:float32-grid:node-on-pole-rejected"
+# dispositions (lead, round 2): TRIM_KEY — the trimming clause replaces infinity by 1e16, finite images beyond that number are outside
+# the envelope; BZERO_KEY — state of a rejected call (inferred b, C19's state machine); F32_KEY — single-precision grids.
+# INVNAN_KEY is a listed finding (KNOWN_FINDINGS.txt).
+INFO_ONLY = {TRIM_KEY, BZERO_KEY, F32_KEY}
+
+SNIPPET_TRIM = """import warnings; warnings.filterwarnings('ignore')
+from grid import onedgrid, rtransform
+g = getattr(onedgrid, {rule!r})({n})
+tf = getattr(rtransform, {cls!r})(*{ps!r}, trim_inf=True)
+try:
+    tf.transform_1d_grid(g); err = None
+except ValueError as e:
+    err = str(e)
+assert err is None, f'{rule}({n}) on [-1, 1] through {cls}{{tuple({ps!r})}} (domain [-1, 1]) is rejected: {{err}}'
+"""
+
+SNIPPET_QUAD = """import warnings; warnings.filterwarnings('ignore')
+import numpy as np, mpmath
+from grid import onedgrid, rtransform
+g = getattr(onedgrid, {rule!r})({n})
+tf = getattr(rtransform, {cls!r})(*{ps!r})
+h = tf.transform_1d_grid(g)
+lo, hi = float(h.domain[0]), float(h.domain[1])
+keep = np.isfinite(h.points) & np.isfinite(h.weights) & (np.abs(h.weights) < 1e15)
+f_np, f_mp = {{'exp(-r)': (lambda r: np.exp(-r), lambda r: mpmath.exp(-r)),
+              '1/(1+r)^3': (lambda r: 1.0 / (1.0 + r) ** 3, lambda r: 1 / (1 + r) ** 3),
+              'r^2 exp(-r)+exp(-2r)': (lambda r: r ** 2 * np.exp(-r) + np.exp(-2 * r), lambda r: r ** 2 * mpmath.exp(-r) + mpmath.exp(-2 * r))}}[{name!r}]
+val = float(np.sum((f_np(h.points) * h.weights)[keep]))
+ref = float(mpmath.quad(f_mp, [lo, mpmath.inf if hi >= 1e16 else hi]))
+assert val > 0 and abs(val - ref) <= {tol!r} * ref, f'integral of {name} over [{{lo}}, {{hi}}] on the transformed grid = {{val}}, mpmath.quad gives {{ref}}'
+"""
+
+
+def _trim_overflow(ctx: Ctx, rule, n, cls, ps, trim, tf, g, tag):
+    """True iff the rejection of a matching (rule, transform) pair is the trimming defect: a node close to the pole has a
+    finite image above 1e16 while the infinite end of the new domain was replaced by 1e16"""
+    if not (cls in HAS_TRIM and trim and tag == "value-error"):
+        return False
+    with np.errstate(all="ignore"):
+        img = np.asarray(construct(cls, ps, False).transform(g.points), dtype=float)
+    big = img[np.isfinite(img) & (np.abs(img) > 1e16)]
+    if big.size == 0:
+        return False
+    _candidate(ctx, TRIM_KEY,
+               f"{rule}({n}) through {cls}{tuple(ps)} trim_inf=True raises ValueError although the domains match: the node "
+               f"{float(g.points[np.argmax(np.where(np.isfinite(img), np.abs(img), 0))])!r} has the finite image {float(big.max()) if big.max() > 0 else float(big.min())!r}, "
+               "above the 1e16 that _convert_inf puts in place of the infinite end of the new domain, so OneDGrid refuses the grid",
+               witness={"rule": rule, "npoints": n, "transform": cls, "params": ps, "trim_inf": True},
+               snippet=SNIPPET_TRIM.format(rule=rule, n=n, cls=cls, ps=list(ps)))
+    return True
+
+
+def _oracle_slack(ctx: Ctx, rng):
+    """OneDGrid accepts a node outside its domain by at most 1e-7, on each side"""
+    for lo, hi in ((-1.0, 1.0), (0.0, 3.5), (2.0, 2.5), (-3.0, -0.5)):
+        for dlt in (0.0, 5e-8, 9e-8, 1.3e-7, 2e-7, 5e-7, 9e-7, 1e-5):
+            mid = [rng.uniform(lo, hi) for _ in range(rng.choice([0, 1, 3]))]
+            for pts in ([lo - dlt] + mid, mid + [hi + dlt]):
+                _oracle_ctor(ctx, pts, [1.0] * len(pts), (lo, hi))
+
+
+def _oracle_candidates(ctx: Ctx):
+    """probes of behaviour that round-2 cases exposed on the unchanged library (see `_candidate`)"""
+    R, G, O = rt(), OneDGrid(), og()
+    with np.errstate(all="ignore"):
+        # a finite image above the 1e16 that stands for infinity: a matching (rule, transform) pair is rejected
+        for rule, n, cls, ps in (("GaussLegendre", 60, "HandyRTransform", [0.0, 1.0, 5]), ("GaussLegendre", 20, "HandyRTransform", [0.1, 2.5, 8])):
+            g = make_rule(rule, n)
+            tf = construct(cls, ps, True)
+            tag, _ = _impl(tf, g)
+            if tag != "ok" and _trim_overflow(ctx, rule, n, cls, ps, True, tf, g, tag):
+                break
+        # a failed inference of b leaves b = 0 in the object: every later call returns nan/inf
+        for C in (R.LinearInfiniteRTransform, R.ExpRTransform, R.PowerRTransform):
+            T = C(0.5, 3.0)
+            first = _impl(T, O.UniformInteger(2)[0:1])[0]          # one node at 0: b cannot be inferred, ValueError
+            tag, h = _impl(T, O.UniformInteger(4))
+            ref = C(0.5, 3.0).transform_1d_grid(O.UniformInteger(4))
+            if first == "value-error" and not (tag == "ok" and np.allclose(h.points, ref.points, equal_nan=False)):
+                _candidate(ctx, BZERO_KEY,
+                           f"{C.__name__}(0.5, 3.0) (b left open): transform_1d_grid(UniformInteger(2)[0:1]) raises ValueError (maximum 0) but keeps "
+                           f"b = {T.b!r}; the next call transform_1d_grid(UniformInteger(4)) on the same object gives "
+                           + (f"points {h.points.tolist()}, domain {tuple(float(x) for x in h.domain)}" if tag == "ok" else tag)
+                           + f" instead of points {ref.points.tolist()}",
+                           witness={"class": C.__name__, "params": [0.5, 3.0]},
+                           snippet=("import warnings; warnings.filterwarnings('ignore')\nimport numpy as np\nfrom grid import onedgrid, rtransform\n"
+                                    f"T = rtransform.{C.__name__}(0.5, 3.0)\n"
+                                    "try:\n    T.transform_1d_grid(onedgrid.UniformInteger(2)[0:1])\nexcept ValueError:\n    pass\n"
+                                    "h = T.transform_1d_grid(onedgrid.UniformInteger(4))\n"
+                                    f"ref = rtransform.{C.__name__}(0.5, 3.0).transform_1d_grid(onedgrid.UniformInteger(4))\n"
+                                    "assert np.allclose(h.points, ref.points), f'after a rejected first call the object gives {h.points} (domain {h.domain}), a fresh object {ref.points}'\n"))
+                break
+        # InverseRTransform of a map onto [rmin, inf) applied to the grid the map produced without trimming: image of inf is nan
+        for cls, ps in (("BeckeRTransform", [0.1, 1.5]), ("HandyRTransform", [0.1, 1.5, 2])):
+            T = construct(cls, ps, False)
+            h = T.transform_1d_grid(O.GaussLegendre(4))
+            tag, k = _impl(R.InverseRTransform(T), h)
+            if tag == "ok" and (k.domain[0] != k.domain[0] or k.domain[1] != k.domain[1]):
+                _candidate(ctx, INVNAN_KEY,
+                           f"InverseRTransform({cls}{tuple(ps)}, trim_inf=False) applied to the grid that transform produced from GaussLegendre(4) "
+                           f"(domain {tuple(float(x) for x in h.domain)}) returns the domain {tuple(float(x) for x in k.domain)}: the image of the infinite end is "
+                           "inf/inf = nan instead of 1, not an ordered interval containing the nodes",
+                           witness={"class": cls, "params": ps},
+                           snippet=("import warnings; warnings.filterwarnings('ignore')\nfrom grid import onedgrid, rtransform\n"
+                                    f"T = rtransform.{cls}(*{ps!r}, trim_inf=False)\nh = T.transform_1d_grid(onedgrid.GaussLegendre(4))\n"
+                                    "k = rtransform.InverseRTransform(T).transform_1d_grid(h)\nlo, hi = k.domain\n"
+                                    "assert lo <= hi and (lo <= k.points).all() and (k.points <= hi).all(), f'round trip of the domain {h.domain}: {k.domain}'\n"))
+                break
+        # float32 grid with a node on the pole: 1e16 is not a float32 number
+        g = G(np.array([-1.0, 0.0, 1.0], dtype=np.float32), np.array([0.5, 1.0, 0.5]), (-1, 1))
+        tag, h = _impl(R.BeckeRTransform(0.1, 1.5), g)
+        if tag != "ok":
+            _candidate(ctx, F32_KEY,
+                       "BeckeRTransform(0.1, 1.5).transform_1d_grid(OneDGrid(float32 [-1, 0, 1], [0.5, 1, 0.5], (-1, 1))) raises "
+                       f"{tag}: the trimmed node is float32(1e16) = 10000000272564224 > 1e16 = the trimmed end of the domain (float64)",
+                       witness={"points": [-1.0, 0.0, 1.0], "dtype": "float32"})
+
+
+# ----------------------------------------------------------------------------
 # correspondence
 # ----------------------------------------------------------------------------
 def corr(ctx: Ctx):
@@ -315,9 +1310,15 @@ def corr(ctx: Ctx):
                 dom = (lo, hi)
             m = rng.randrange(1, 6)
             pts = np.sort(np.array([rng.uniform(lo, hi) for _ in range(m)]))
-            if dom is not None and rng.random() < 0.3:   # a point outside the grid's own domain by about the slack
-                pts[0] = dom[0] - rng.choice([5e-8, 9.9e-8])
+            if dom is not None and rng.random() < 0.3:   # a point outside the grid's own domain by about the slack, either side
+                if rng.random() < 0.5:
+                    pts[0] = dom[0] - rng.choice([5e-8, 9.9e-8, 1.01e-7])
+                else:
+                    pts[-1] = dom[1] + rng.choice([5e-8, 9.9e-8, 1.01e-7])
             wts = np.array([rng.uniform(0.05, 1.0) for _ in range(m)])
+            if rng.random() < 0.5:                       # the API does not ask for ascending nodes or positive weights
+                rng.shuffle(pts)
+                wts = wts * np.array([rng.choice([1.0, 1.0, -1.0, 0.0]) for _ in range(m)])
             try:
                 g = G(pts, wts, dom)
             except ValueError:
@@ -341,6 +1342,11 @@ def corr(ctx: Ctx):
                      f"transform_1d_grid {desc}: {bad}",
                      witness={"case": desc, "points": g.points, "weights": g.weights, "domain": _dom(g.domain),
                               "tf_domain": [float(x) for x in tf.domain], "disagreement": bad})
+
+    # round 2: shared objects and sequences of calls, dtype / container kinds, any order of the nodes, every class
+    # wrapped in InverseRTransform, extreme parameters
+    _corr_scripts(ctx, _r2_scripts(ctx, rng, "corr"))
+    _corr_not_a_grid(ctx)
 
     ctx.tagc("corr:values-compared", _STATS["compared"])
     ctx.tagc("corr:values-conditioning-limited(skipped)", _STATS["limited"])
@@ -452,6 +1458,7 @@ def oracle(ctx: Ctx, budget: str):
     pairs = [(r, t, True) for r in sorted(FINITE_RULES) for t in FINITE_TF] + \
             [(r, t, False) for r in sorted(INF_RULES) for t in INF_TF]
     reps = 3 if large else 1
+    pair_scripts = []
     for rule, cls, fin in pairs:
         ok = (FINITE_RULES if fin else INF_RULES)[rule]
         for _ in range(reps):
@@ -461,15 +1468,25 @@ def oracle(ctx: Ctx, budget: str):
             if cls == "HyperbolicRTransform" and ps[1] * (g.size - 1) >= 1:
                 ps[1] = round(0.5 / max(g.size - 1, 1), 6)
             tf = construct(cls, ps, trim)
+            before = (g.points.copy(), g.weights.copy(), g.domain)
             tag, h = _impl(tf, g)
             case = {"rule": rule, "npoints": n, "transform": cls, "params": ps, "trim_inf": bool(trim)}
+            pair_scripts.append((f"pairs:{rule}:{cls}", {"tfs": [_spec_tf(cls, ps, trim if cls in HAS_TRIM else False)],
+                                                         "grids": [_spec_grid(before[0], before[1], before[2])], "calls": [[0, 0]]}))
+            if not _unchanged(g, before):
+                ctx.fail("oracle", f"rtransform.transform_1d_grid:{cls}:input-modified",
+                         f"{rule}({n}) through {cls}{tuple(ps)}: the caller's grid was changed by the call (weights {before[1][:3].tolist()} -> "
+                         f"{g.weights[:3].tolist()})", witness=case, snippet=_snippet_script(pair_scripts[-1][1], "input-modified"))
             if tag != "ok":
                 if cls == "HyperbolicRTransform" or not fin:
                     # nodes beyond the pole 1/b, or images overflowing: rejected by the constructor, not a wrong grid
                     ctx.tagc("oracle:rejected-by-constructor")
                     continue
+                if _trim_overflow(ctx, rule, n, cls, ps, trim, tf, g, tag):
+                    continue
                 ctx.fail("oracle", f"rtransform.transform_1d_grid:{cls}:rejected",
-                         f"{rule}({n}) through {cls}{tuple(ps)}: domains match but the call raised {tag}", witness=case)
+                         f"{rule}({n}) through {cls}{tuple(ps)}: domains match but the call raised {tag}", witness=case,
+                         snippet=_snippet_script(pair_scripts[-1][1], "rejected"))
                 continue
             dec = _decreasing(tf, float(g.domain[0]), float(g.domain[1]))
             lo, hi = float(h.domain[0]), float(h.domain[1])
@@ -515,23 +1532,36 @@ def oracle(ctx: Ctx, budget: str):
                 if abs(lhs - float(rhs)) > 1e-10 * max(scale, 1e-300):
                     what = (f"{rule}({n}) through {cls}{tuple(ps)}: sum of {name} over the new grid = {lhs!r}, the old rule applied to "
                             f"f(r(x))|r'(x)| = {float(rhs)!r}")
-                    if dec:
+                    # the listed finding is the *sign*: under a decreasing map the sum is exactly the negative; anything
+                    # else (nodes and weights no longer paired, another Jacobian) is a different failure
+                    if dec and abs(lhs + float(rhs)) <= 1e-10 * max(scale, 1e-300):
                         report_sign(rule, n, cls, ps, trim, False, what, case)
                     else:
                         ctx.fail("oracle", f"rtransform.transform_1d_grid:{cls}:identity", what, witness=case)
             ctx.tagc("oracle:pairs")
 
+    # ---- 1b. the same pairs judged node by node (independent Jacobian: mpmath.diff of the 40-digit run of the map), then the
+    #          round-2 scripts: shared objects and sequences of calls, dtype / container kinds, any node order, negative and
+    #          zero weights, every class wrapped in InverseRTransform, exponents over [0.5, 8], nodes on the ends, slack
+    _oracle_scripts(ctx, pair_scripts, label="pairs", max_nodes=8)
+    _oracle_scripts(ctx, _r2_scripts(ctx, rng, "oracle"))
+    _oracle_slack(ctx, rng)
+    _oracle_candidates(ctx)
+    mp.mp.dps = 30
+
     # ---- 2. integrals of positive integrands against mpmath.quad (accurate rules only)
     quad_cases = [("GaussLegendre", 40), ("GaussLegendre", 60), ("ClenshawCurtis", 61), ("FejerFirst", 60)]
     if large:
         quad_cases += [("GaussLegendre", 80), ("GaussChebyshevType2", 120), ("TrefethenCC", 61)]
-    for rule, n in quad_cases:
+    quad_m = [3, 2.5, 4, 1.5, 2, 3.5, 1]       # an integer >= 3 and a fractional exponent in every run (first two rules)
+    quad_off = rng.randrange(len(quad_m))
+    for qi, (rule, n) in enumerate(quad_cases):
         g = make_rule(rule, n)
         for cls in FINITE_TF:
             for rep in range(2 if large else 1):
                 rmin = rng.choice([0.0, 0.1, 0.5])
                 Rp = rng.choice([1.0, 1.5, 2.0])
-                m = rng.choice([1, 2, 3])
+                m = quad_m[qi] if qi < 2 and rep == 0 else quad_m[(quad_off + qi + 3 * rep) % len(quad_m)]
                 ps = {"BeckeRTransform": [rmin, Rp], "MultiExpRTransform": [rmin, Rp],
                       "LinearFiniteRTransform": [rmin, rmin + rng.choice([2.0, 5.0, 9.5])],
                       "KnowlesRTransform": [rmin, Rp, m], "HandyRTransform": [rmin, Rp, m],
@@ -542,7 +1572,8 @@ def oracle(ctx: Ctx, budget: str):
                 tag, h = _impl(tf, g)
                 case = {"rule": rule, "npoints": n, "transform": cls, "params": ps}
                 if tag != "ok":
-                    ctx.fail("oracle", f"rtransform.transform_1d_grid:{cls}:rejected", f"{rule}({n}) through {cls}{tuple(ps)} raised {tag}", witness=case)
+                    if not _trim_overflow(ctx, rule, n, cls, ps, True, tf, g, tag):
+                        ctx.fail("oracle", f"rtransform.transform_1d_grid:{cls}:rejected", f"{rule}({n}) through {cls}{tuple(ps)} raised {tag}", witness=case)
                     continue
                 lo, hi = float(h.domain[0]), float(h.domain[1])
                 keep = np.isfinite(h.points) & np.isfinite(h.weights) & (np.abs(h.weights) < 1e15)
@@ -550,14 +1581,19 @@ def oracle(ctx: Ctx, budget: str):
                     val = float(np.sum((f_np(h.points) * h.weights)[keep]))
                     ref = float(mp.quad(f_mp, [mp.mpf(lo), mp.inf if hi >= 1e16 else mp.mpf(hi)]))
                     ctx.tagc("oracle:quad")
-                    if not (val > 0) or abs(val - ref) > 0.1 * ref:
+                    # exp(-r): these rules integrate it to better than 1e-3 under every map above (measured: <= 7e-4),
+                    # a wrong Jacobian shows; the slowly decaying integrands only converge to a few percent
+                    qtol = 2e-3 if name == "exp(-r)" else 0.1
+                    if not (val > 0) or abs(val - ref) > qtol * ref:
                         dec = _decreasing(tf, -1.0, 1.0)
                         what = (f"{rule}({n}) through {cls}{tuple(ps)}: integral of {name} over [{lo}, {hi}] = {val!r}, "
-                                f"mpmath.quad gives {ref!r}" + (" (decreasing map, signed Jacobian in transform_1d_grid)" if dec else ""))
-                        if dec and abs(val + ref) <= 0.1 * ref:
+                                f"mpmath.quad gives {ref!r}" + (" (decreasing map, signed Jacobian in transform_1d_grid)" if dec else
+                                                               f" (relative deviation {abs(val - ref) / ref:.1e}, tolerance {qtol:g})"))
+                        if dec and abs(val + ref) <= qtol * ref:
                             report_sign(rule, n, cls, ps, True, False, what, dict(case, integrand=name, value=val, reference=ref))
                         else:
-                            ctx.fail("oracle", f"rtransform.transform_1d_grid:{cls}:quad", what, witness=dict(case, integrand=name, value=val, reference=ref))
+                            ctx.fail("oracle", f"rtransform.transform_1d_grid:{cls}:quad", what, witness=dict(case, integrand=name, value=val, reference=ref),
+                                     snippet=SNIPPET_QUAD.format(rule=rule, n=n, cls=cls, ps=ps, name=name, tol=qtol))
 
     # ---- 3. Gauss-Legendre through LinearFinite: exact on monomials up to degree 2n-1 (exact rationals)
     for n in ([2, 3, 4, 5, 7, 10] if not large else list(range(2, 16))):
@@ -605,3 +1641,19 @@ def oracle(ctx: Ctx, budget: str):
             ctx.fail("oracle", f"rtransform.transform_1d_grid:{cls}:guard",
                      f"{rule}({n}) with domain {g.domain} through {cls} with domain {tf.domain}: not rejected ({tag})",
                      witness={"rule": rule, "npoints": n, "transform": cls, "params": ps})
+
+
+# ----------------------------------------------------------------------------
+# round 2, part B: ties of the extended-value statements (Props/C04/Extended.lean) — see c04_ext.py
+# ----------------------------------------------------------------------------
+_corr_main, _oracle_main = corr, oracle
+
+
+def corr(ctx: Ctx):  # noqa: F811
+    _corr_main(ctx)
+    c04_ext.corr_ext(ctx)
+
+
+def oracle(ctx: Ctx, budget: str):  # noqa: F811
+    _oracle_main(ctx, budget)
+    c04_ext.oracle_ext(ctx, budget)
